@@ -64,6 +64,7 @@ class Check:
     reference_models = []
     flavours = ("asan",)
     max_shrink_runs = 150
+    max_shrunk_violations = 40
 
     def budget(self, tier):
         return {"runs": 50, "wall_s": 90} if tier == "quick" else {"runs": 2000, "wall_s": 900}
@@ -277,34 +278,60 @@ def main(check_cls):
             print("HARNESS-ERROR: property=%s run=%d\n%s" % (check.pid, idx, h))
         exit_code = 2
 
-    # ---- violations: gate, shrink, replay file, known-findings lookup
+    # ---- violations: gate, shrink, final class key, known-findings lookup, replay file
     reported = {}
     known_hit = collections.Counter()
     nviol = 0
-    by_key = collections.OrderedDict()
-    for item in viols:
-        by_key.setdefault(item[3]["key"], []).append(item)
-    for key, items in by_key.items():
-        idx, seed, spec, v, trace = items[0]
-        f = finding_for(findings, key)
+    resolved = {}      # unshrunk key -> (final key, path or None)
+    shrunk = 0
+    for idx, seed, spec, v, trace in viols:
+        key0 = v["key"]
+        if key0 in resolved:
+            fkey = resolved[key0]
+            if fkey is None:
+                continue
+            f = finding_for(findings, fkey)
+            if f:
+                known_hit[f["key"]] += 1
+            continue
         # gate 1: the same spec in a fresh process must give the same execution and the same class
         again = _exec_in_child(check, spec)
         keys_again = [x["key"] for x in again["violations"]]
-        if again["harness_error"] or key not in keys_again or again["trace"] != trace:
+        if again["harness_error"] or key0 not in keys_again or again["trace"] != trace:
             print("HARNESS-ERROR: property=%s run=%d violation '%s' did not reproduce in a fresh process "
-                  "(keys %s, trace %s vs %s)%s" % (check.pid, idx, key, keys_again, again["trace"][:12], trace[:12],
+                  "(keys %s, trace %s vs %s)%s" % (check.pid, idx, key0, keys_again, again["trace"][:12], trace[:12],
                                                ("\n" + again["harness_error"]) if again["harness_error"] else ""))
             exit_code = 2
+            resolved[key0] = None
             continue
+        f0 = finding_for(findings, key0)
+        if f0 is not None or shrunk >= check.max_shrunk_violations:
+            small, fv = spec, v
+        else:
+            shrunk += 1
+            small = _shrink(check, spec, v)
+            fres = _exec_in_child(check, small)
+            fv = None
+            for x in fres["violations"]:
+                if _skey(x) == _skey(v):
+                    fv = x
+                    break
+            if fv is None:
+                small, fv = spec, v
+        fkey = fv["key"]
+        resolved[key0] = fkey
+        f = finding_for(findings, fkey)
         if f:
-            known_hit[f["key"]] += len(items)
+            known_hit[f["key"]] += 1
             if f["key"] not in reported:
                 reported[f["key"]] = 1
-                print("KNOWN-FINDING: property=%s %s [%s] (%d occurrence(s) this run, e.g. run %d: %s)" %
-                      (check.pid, f.get("what", ""), f["key"], len(items), idx, v["detail"][:300]))
+                print("KNOWN-FINDING: property=%s %s [%s] (e.g. run %d: %s)" %
+                      (check.pid, f.get("what", ""), f["key"], idx, fv["detail"][:300].replace("\n", " ")))
             continue
-        small = _shrink(check, spec, v)
-        path = _write_replay(check, a, idx, seed, small, v)
+        if fkey in reported:
+            continue
+        reported[fkey] = 1
+        path = _write_replay(check, a, idx, seed, small, fv)
         rc = _replay(check, path, findings, quiet=True)
         if rc != 1:
             print("HARNESS-ERROR: property=%s replay file %s did not reproduce (rc=%d)" % (check.pid, path, rc))
@@ -312,7 +339,7 @@ def main(check_cls):
             continue
         nviol += 1
         print("VIOLATION property=%s replay=%s" % (check.pid, path))
-        print("  class: %s\n  detail: %s\n  occurrences this run: %d" % (key, v["detail"][:2000], len(items)))
+        print("  class: %s\n  detail: %s" % (fkey, fv["detail"][:2500]))
         if exit_code == 0:
             exit_code = 1
 
@@ -323,6 +350,10 @@ def main(check_cls):
           (check.pid, a.tier, merged["runs"], merged["evals"], len(merged["distinct"]), nviol,
            sum(known_hit.values()), len(herrs), wall_s))
     sys.exit(exit_code)
+
+
+def _skey(x):
+    return (x.get("extra") or {}).get("skey") or x["key"]
 
 
 def _shrink(check, spec, v):
@@ -338,7 +369,7 @@ def _shrink(check, spec, v):
             cand["_seed"] = spec.get("_seed")
             cand["_index"] = spec.get("_index")
             res = _exec_in_child(check, cand)
-            if not res["harness_error"] and v["key"] in [x["key"] for x in res["violations"]]:
+            if not res["harness_error"] and _skey(v) in [_skey(x) for x in res["violations"]]:
                 best = cand
                 progress = True
                 break
